@@ -204,7 +204,15 @@ fn native(content: &str, ops: &[WOp]) -> Option<String> {
 
 /// `wasm <content hex> <ops> => ok <wasm svg hex> <native svg hex>` | `trap <msg> <native svg hex>`
 pub fn wasm_line(content: &str, ops: &[WOp]) -> String {
-    let head = format!("wasm {} {} => ", hex(content.as_bytes()), toks(ops));
+    // `wasmn`: some numeric option is NaN or infinite or negative zero (what JavaScript passes for a missing argument or an
+    // empty field); the dyadic model has no such values, so only the property itself (wasm output = native output) is judged
+    let oddf = |x: &f64| !x.is_finite() || (*x == 0.0 && x.is_sign_negative());
+    let nonfinite = ops.iter().any(|o| match o {
+        WOp::ImageSize(a, b) => oddf(a) || oddf(b),
+        WOp::ImagePosition(v) => v.iter().any(oddf),
+        _ => false,
+    });
+    let head = format!("{} {} {} => ", if nonfinite { "wasmn" } else { "wasm" }, hex(content.as_bytes()), toks(ops));
     let (c2, o2) = (content.to_string(), ops.to_vec());
     let nat = std::panic::catch_unwind(move || native(&c2, &o2));
     let nat = match nat {
@@ -326,5 +334,23 @@ pub fn gen(out: &mut crate::gen::Out, rng: &mut Rng, thorough: bool) {
             });
         }
         out.job(move || wasm_line(&content, &ops));
+    }
+    // numeric options as JavaScript really passes them: NaN for a missing argument, Infinity, negative zero
+    let odd = [f64::NAN, f64::INFINITY, f64::NEG_INFINITY, -0.0, 0.0];
+    for k in 0..(if thorough { 120 } else { 20 }) {
+        let mut ops = vec![WOp::Image("logo.png".to_string())];
+        if rng.chance(1, 2) {
+            ops.push(WOp::ImagePosition(vec![10.0, 12.0]));
+        }
+        match k % 4 {
+            0 => ops.push(WOp::ImageSize(6.0, *rng.pick(&odd))),
+            1 => ops.push(WOp::ImageSize(*rng.pick(&odd), 1.0)),
+            2 => ops.push(WOp::ImagePosition(vec![*rng.pick(&odd), 9.0])),
+            _ => {
+                ops.push(WOp::ImageSize(5.0, 1.0));
+                ops.push(WOp::ImagePosition(vec![8.0, *rng.pick(&odd)]));
+            }
+        }
+        out.job(move || wasm_line("HTTPS://EXAMPLE.COM/NAN", &ops));
     }
 }
